@@ -140,6 +140,12 @@ def getContextValue (ctx : Ctx) (varPath : String) (default : Ctx) : Ctx :=
 /-- `Task.update_context(context, **kwargs)`: new `_context_override` from the previous one. -/
 def updateContext (prev ctx kwargs : Ctx) : Ctx := mergeDicts [prev, ctx, kwargs]
 
+/-- The `_context_override` a call carries after a chain `task.update_context(c₁, **k₁)…update_context(cₙ, **kₙ)`
+with `.partial(..)` / `.options(..)` anywhere in between (they leave the override alone: `PartialTask.update_context`
+and `PartialTask.options` delegate to the wrapped task): each step updates the previous override, starting from `{}`. -/
+def overrideOfChain (steps : List (Ctx × Ctx)) : Ctx :=
+  steps.foldl (fun prev s => updateContext prev s.1 s.2) (.obj [])
+
 /-- `Execution(context=merge_dicts([self._context, context]))` in `Scheduler.run`. -/
 def execContext (config run : Ctx) : Ctx := mergeDicts [config, run]
 
